@@ -143,7 +143,7 @@ theorem eraseSet_eq_mergeAt : ∀ (i : Nat) (bins : List (K × K)) (v1 f1 v2 f2 
 /-- With a coherent cache (or none) `_trim` picks the reference's pair. -/
 theorem trimIndex_eq {h : Hist K} {i : Nat} (hc : Coherent h) (hok : trimIndex h = .ok i) :
     i = argminFirst (gaps h.bins) := by
-  unfold trimIndex at hok
+  rw [trimIndex_def] at hok
   split at hok
   · rename_i d hd
     obtain ⟨_, hg, hm⟩ := hc d hd
@@ -441,10 +441,10 @@ theorem fbuilt_coherent {h : Hist K} (hb : FBuilt h) : Coherent h := by
   | init cap => exact coherent_init cap
   | update v c _ hok ih => exact (coherent_update ih hok).1
   | merge _ _ hok ih _ =>
-    unfold Distogram.merge at hok
+    rw [merge_def] at hok
     exact (coherent_foldUpdate _ ih hok).1
   | add _ _ hok ih _ =>
-    rw [add_def] at hok; unfold Distogram.merge at hok
+    rw [add_def] at hok; rw [merge_def] at hok
     obtain ⟨m, hm, hok⟩ := bind_eq_ok hok
     have cm := (coherent_foldUpdate _ ih hm).1
     split at hok
